@@ -357,6 +357,10 @@ def rules(ctx):
     r3_provenance(ctx)
     r4_counts(ctx)
     r9_lme_drops_missing_visits(ctx)
+    # the constant benchmark model works on numpy arrays too: its summaries ignore the missing entries (nanmax / nanmean / first non-NaN), a missing
+    # entry never competes as a 0 (same rule as C20.R1)
+    from .c20 import r1_constant
+    r1_constant(ctx, rid="C06.R10")
     # the root of every mask: Dataset builds `mask` = (padding mask) * (not-NaN) on the rows it fills, zero-fills the NaNs afterwards and
     # restores them from the mask when values are read back (same rule as the Dataset part of C14.R3, decided on the same code)
     from .c14 import r3b_dataset_mask
